@@ -160,6 +160,11 @@ REPRO = {
     "D-67": ("_*a*_ b\n", dict(width=88, semantic=False)),
     "D-69": ("<a  \nhref=\"x\">foo</a> bar\n", dict(width=88, semantic=False)),
     "D-37": ("1) one\n2) two\n\n1. three\n2. four\n", dict(width=88, semantic=False)),
+    "D-83": ("x {% t %}\n| a\n", dict(width=88, semantic=False)),
+    "D-84": ("a\\  \nb\n", dict(width=88, semantic=False)),
+    "D-85": ("x[^n]\n\n[^n]:     \n\ny\n", dict(width=88, semantic=False)),
+    "D-86": ("x [t](<a  b>) y\n", dict(width=88, semantic=False)),
+    "D-87": ("x `!(``a`` y\n", dict(width=88, semantic=False)),
 }
 
 
@@ -261,6 +266,19 @@ def classify(kf, rec):
         return bool(re.search(r"_\*|\*_", doc)) and any(k in what for k in ("Emphasis", "StrongEmphasis"))
     if cl == "hard-break-inside-inline-html":
         return bool(re.search(r"<[^<>\n]*  +\r?\n[^<>]*>", doc)) and any(k in what for k in ("InlineHTML", "LineBreak", "Text"))
+    src0 = c.get("parser_input") or doc
+    if cl == "block-like-line-after-tag-line":
+        # a line that ends in a template tag / comment, directly followed (same paragraph) by a line that looks like a table row or list item
+        return bool(re.search(r"(?:%\}|#\}|\}\}|-->)[ \t]*\r?\n[ \t]*(?:\||[-*+][ \t]|\d+[.)][ \t])", src0)) and ("Paragraph" in what or "Text" in what)
+    if cl == "literal-backslash-before-hard-break":
+        return bool(re.search(r"(?<!\\)(?:\\\\)*\\  +\r?\n", src0)) and ("Text" in what or "LineBreak" in what)
+    if cl == "empty-footnote-definition":
+        return bool(re.search(r"^[ >]*\[\^[^\]\n]+\]:[ \t]*$", src0, flags=re.M)) and "Footnote" in (what + json.dumps(c.get("diff_kinds", "")) + what) or \
+            (bool(re.search(r"^[ >]*\[\^[^\]\n]+\]:[ \t]*$", src0, flags=re.M)) and "[^" in what)
+    if cl == "space-run-inside-angle-destination":
+        return bool(re.search(r"\]\(<[^<>\n]*  [^<>\n]*>", src0)) and ".dest" in what
+    if cl == "stray-backtick-before-shortened-code-span":
+        return bool(re.search(r"`[^`\n]*``+[^`]", src0)) and ("CodeSpan" in what or "Text" in what)
     if cl == "underscore-emphasis-repaired":
         words = re.findall(r"[A-Za-z]{2,}", doc)
         return "_" in doc and "*" in doc and not re.search(r"_\*|\*_", doc) and ("Emphasis" in what or "Text.s" in what) and len(words) < 3
